@@ -2,6 +2,7 @@
 From Coq Require Import List ZArith NArith Bool Reals.
 Import ListNotations.
 From GS Require Import Num NumR EventLoop Kernel Sim.
+From GS Require Import NumZ Sim ExampleKit.
 From GS.Proofs Require Import Aux SimP SimP3 SimR TraceSpec MoveSpec.
 
 Section C11.
@@ -79,6 +80,19 @@ Proof. apply move_advance. Qed.
 Theorem C11_lands_R (cfg : scfg R) (cur tgt : vec3 R) (speed : R) :
   (dist3 cur tgt <= speed * c_rate cfg)%R -> move R_ops cfg cur tgt speed = tgt.
 Proof. apply move_lands_R. Qed.
+
+(** Non-vacuity: speed 5, interval 1, target at distance 5: the node lands on the first update and stays;
+    the node without a target never moves. *)
+Definition ex11 (n : nat) (ps : unit) (now : Z) (c : cb Z) : unit * list (action Z) :=
+  match c, n with CbInit, O => (tt, [AGoto (3, 4, 0)%Z]) | _, _ => (tt, []) end.
+Example C11_example :
+  runx (cfgx [HMob; HTimer] 2 [(0, 0, 0)%Z; (1, 1, 1)%Z] 10%Z 0%Z 0%Z 1%Z 5%Z [] []) ex11 (Some 3%Z) None 50 =
+  ([TCb 0 0%Z CbInit; TAct 0 (AGoto (3, 4, 0)%Z) Ok; TCb 1 0%Z CbInit;
+    TCb 0 1%Z (CbTelemetry (3, 4, 0)%Z); TCb 1 1%Z (CbTelemetry (1, 1, 1)%Z);
+    TCb 0 2%Z (CbTelemetry (3, 4, 0)%Z); TCb 1 2%Z (CbTelemetry (1, 1, 1)%Z);
+    TCb 0 3%Z (CbTelemetry (3, 4, 0)%Z); TCb 1 3%Z (CbTelemetry (1, 1, 1)%Z);
+    TCb 0 3%Z CbFinish; TCb 1 3%Z CbFinish], true, 0, [(3, 4, 0)%Z; (1, 1, 1)%Z]).
+Proof. vm_compute. reflexivity. Qed.
 
 Print Assumptions C11_lands.
 Print Assumptions C11_stays.
